@@ -15,7 +15,9 @@
        workbooks are recorded (sheet as written, records as returned) and judged by
        spec/Trace_ExcelReader.tla.
 """
+import contextlib
 import glob
+import io as io_module
 import json
 import math
 import os
@@ -29,7 +31,20 @@ from harness.core import to_dec
 
 SHEETS_PER_BOOK = 24
 NAME_POOL = ['Sheet1', 'species', 'my data 3', 'x', 'refs & more', 'a-b.c (2)', 'données',
-             'ABCDEFGHIJKLMNOPQRSTUVWXYZ', '  padded ', '0', "it's", 'lateral_interactions']
+             'ABCDEFGHIJKLMNOPQRSTUVWXYZ01234', '  padded ', '0', "it's", 'lateral_interactions', '温度 ΔH']
+# how the sheet is laid out and which skiprows / header arguments match it
+FORMS = {'c1': dict(title=0, comments=1, kw={}),                       # default skiprows=[1]
+         'c1x': dict(title=0, comments=1, kw={'skiprows': [1]}),
+         'c0n': dict(title=0, comments=0, kw={'skiprows': None}),
+         'c0e': dict(title=0, comments=0, kw={'skiprows': []}),
+         'c2': dict(title=0, comments=2, kw={'skiprows': [1, 2]}),
+         't_h1': dict(title=1, comments=1, kw={'header': 1, 'skiprows': [2]}),
+         't_s0': dict(title=1, comments=1, kw={'header': 0, 'skiprows': [0, 2]}),
+         't_h1_c0': dict(title=1, comments=0, kw={'header': 1, 'skiprows': None})}
+FORM_NAMES = sorted(FORMS)
+SHEET_MODES = ('name', 'index', 'first')
+DEFAULT_OPT = {'delim': 46, 'cutoff': [0, 0], 'imag': False, 'files': []}
+MOLECULES = ['H2O', 'CO', 'CO2', 'C2H2', 'CH4', 'H2', 'N2', 'O2', 'C2H6']     # Hill formula == name
 DROPPED_KEYS = ('required', 'optional')      # informational entries of pmutt.statmech.presets
 
 
@@ -57,6 +72,11 @@ def cell_value(cell):
         return None
     if cell['t'] == 'n':
         return dec_to_number(cell['v'])
+    if cell['t'] == 'b':
+        return bool(cell['v'][0])
+    if cell['t'] == 't':
+        import datetime
+        return datetime.datetime(*cell['v'])
     return text(cell['v'])
 
 
@@ -65,7 +85,14 @@ def proj_scalar(x):
     if isinstance(x, str):
         return {'t': 's', 'v': codes(x)}
     if isinstance(x, (bool, np.bool_)):
-        return {'t': 'o', 'v': codes(repr(x))}
+        return {'t': 'n', 'v': to_dec(1.0 if x else 0.0)}     # judged up to Python equality (True == 1)
+    import datetime
+    if isinstance(x, datetime.datetime):                       # includes pandas.Timestamp
+        try:
+            return {'t': 't', 'v': [int(x.year), int(x.month), int(x.day), int(x.hour), int(x.minute),
+                                    int(x.second)]}
+        except Exception:
+            return {'t': 'nan', 'v': []}                       # NaT
     if isinstance(x, (int, float, np.integer, np.floating)):
         xf = float(x)
         if math.isnan(xf):
@@ -86,6 +113,8 @@ def proj_value(x):
     import numpy as np
     if isinstance(x, type):
         return {'t': 'c', 'v': codes(x.__module__ + '.' + x.__qualname__)}
+    if type(x).__module__.startswith('ase.') and hasattr(x, 'get_chemical_formula'):
+        return {'t': 'a', 'v': codes(x.get_chemical_formula())}
     if isinstance(x, list):
         return {'t': 'l', 'v': [proj_scalar(y) for y in x]}
     if isinstance(x, dict):
@@ -120,8 +149,10 @@ def show_record(rec):
         t = v['t']
         if t == 'n':
             return float(Decimal(v['v'][0]).scaleb(v['v'][1]))
-        if t in ('s', 'c', 'o'):
+        if t in ('s', 'c', 'o', 'a'):
             return ('' if t == 's' else t + ':') + text(v['v'])
+        if t == 't':
+            return 't:%04d-%02d-%02dT%02d:%02d:%02d' % tuple(v['v'])
         if t in ('l', 'v'):
             return [sv(y) for y in v['v']]
         if t == 'd':
@@ -131,6 +162,53 @@ def show_record(rec):
 
 
 # ---------------------------------------------------------------------------- execution
+def _form(case):
+    f = case.get('form')
+    if f is None:                      # cases recorded before the audit round
+        f = 'c1' if case.get('comment', True) else ('c0e' if case.get('skip_empty_list') else 'c0n')
+    return f
+
+
+def _materialise(case, d):
+    """Replace the '@/' prefix of file-naming cells (atoms, vib_outcar) by the scratch directory,
+    write the files the sheet names, and return the case as it is really written."""
+    hs = [text(h).strip() for h in case['headers']]
+    opt = dict(DEFAULT_OPT)
+    opt.update(case.get('opt') or {})
+    sub = lambda t: t.replace('@/', d + '/') if '@/' in t else t
+    rows = case['rows']
+    fcols = [c for c, h in enumerate(hs) if h in ('atoms', 'vib_outcar')]
+    if fcols:
+        rows = [[({'t': 's', 'v': codes(sub(text(cell['v'])))} if c in fcols and cell['t'] == 's' else cell)
+                 for c, cell in enumerate(row)] for row in rows]
+    files = [[codes(sub(text(k))), modes] for k, modes in opt['files']]
+    opt = dict(opt, files=files)
+    for k, modes in files:                                        # OUTCAR files: relative to the cwd (= d)
+        path = text(k)
+        path = path if os.path.isabs(path) else os.path.join(d, path)
+        if not os.path.exists(path):
+            with open(path, 'w') as f:
+                f.write(' Eigenvectors and eigenvalues of the dynamical matrix\n')
+                for n, m in enumerate(modes):
+                    w = float(Decimal(m['w'][0]).scaleb(m['w'][1]))
+                    f.write('%4d %s=  %12.6f THz %12.6f 2PiTHz %12.6f cm-1 %12.6f meV\n'
+                            % (n + 1, 'f  ' if m['k'] == 'f' else 'f/i', w / 33.356, w / 5.3088, w, w / 8.0655))
+    for c in fcols:
+        if hs[c] != 'atoms':
+            continue
+        for row in rows:
+            if row[c]['t'] != 's':
+                continue
+            t = text(row[c]['v']).strip()
+            if t.endswith('.xyz'):                                # structure file: absolute, or relative
+                path = t if os.path.isabs(t) else os.path.join(d, 'wb', t)     # to the spreadsheet
+                if not os.path.exists(path):
+                    from ase.build import molecule
+                    from ase.io import write
+                    write(path, molecule(os.path.basename(t)[:-4]))
+    return dict(case, rows=rows, opt=opt)
+
+
 def _write_book(path, cases):
     import openpyxl
     wb = openpyxl.Workbook()
@@ -140,46 +218,79 @@ def _write_book(path, cases):
         nm = case.get('sheetname')
         if nm is None:
             nm = NAME_POOL[(k + len(case['rows'])) % len(NAME_POOL)]
-        nm = nm[:26]
+        nm = nm[:31]
         base, j = nm, 0
         while nm.lower() in [x.lower() for x in names]:
             j += 1
-            nm = '%s~%d' % (base, j)
-        names.append(nm)
+            nm = '%s~%d' % (base[:27], j)
         ws = wb.create_sheet(nm)
         ws.title = nm
-        names[-1] = ws.title
+        names.append(ws.title)
+        form = FORMS[_form(case)]
+        r = 1
+        if form['title']:
+            ws.cell(row=r, column=1, value='Table %d: a title row above the header' % k)
+            r += 1
         for c, h in enumerate(case['headers']):
-            ws.cell(row=1, column=c + 1, value=text(h))
-        r0 = 2
-        if case.get('comment', True):
+            if h:
+                ws.cell(row=r, column=c + 1, value=text(h))
+        r += 1
+        for q in range(form['comments']):
             for c in range(len(case['headers'])):
-                if c % 2 == 0:
-                    ws.cell(row=2, column=c + 1, value='comment %d (units)' % c)
-            r0 = 3
-        for r, row in enumerate(case['rows']):
+                if (c + q) % 2 == 0:
+                    ws.cell(row=r, column=c + 1, value='comment %d (units)' % c)
+            r += 1
+        for row in case['rows']:
             for c, cell in enumerate(row):
                 v = cell_value(cell)
                 if v is not None:
-                    ws.cell(row=r0 + r, column=c + 1, value=v)
+                    ws.cell(row=r, column=c + 1, value=v)
+            r += 1
     wb.save(path)
     return names
 
 
-def execute_book(cases):
+def _call_kwargs(case, k, name):
+    """Arguments of the real call: layout arguments that match the sheet as written, the way the
+    sheet is addressed, the documented options of the case and pandas keyword arguments."""
+    kw = dict(FORMS[_form(case)]['kw'])
+    mode = case.get('sheet', 'name')
+    if mode == 'index' or (mode == 'first' and k != 0):
+        kw['sheet_name'] = k
+    elif mode == 'name':
+        kw['sheet_name'] = name
+    opt = case['opt']
+    explicit = case.get('explicit_defaults', False)
+    if opt['delim'] != 46 or explicit:
+        kw['delimiter'] = chr(opt['delim'])
+    if opt['cutoff'] != [0, 0] or explicit:
+        kw['min_frequency_cutoff'] = float(Decimal(opt['cutoff'][0]).scaleb(opt['cutoff'][1]))
+    if opt['imag'] or explicit:
+        kw['include_imaginary'] = bool(opt['imag'])
+    if case.get('dtype_str'):
+        which = {text(h): str for h in case['dtype_str']}
+        kw['converters' if case.get('use_converters') else 'dtype'] = which
+    return kw
+
+
+def execute_book(job):
     """Write the cases into one workbook, read every sheet with the real read_excel.
     Returns per case (events - one per read -, mismatch-or-None, info)."""
     import warnings
     from pmutt.io.excel import read_excel
+    cases, io_mode = job if isinstance(job, tuple) else (job, 'abs')
     d = tempfile.mkdtemp(prefix='c15_')
     out = []
+    old = os.getcwd()
     try:
-        path = os.path.join(d, 'book.xlsx')
+        os.mkdir(os.path.join(d, 'wb'))
+        os.chdir(d)                                   # relative OUTCAR names are relative to the cwd
+        cases = [_materialise(c, d) for c in cases]
+        path = os.path.join(d, 'wb', 'book.xlsx')
         names = _write_book(path, cases)
-        for case, nm in zip(cases, names):
-            kw = {'sheet_name': nm}
-            if not case.get('comment', True):
-                kw['skiprows'] = [] if case.get('skip_empty_list') else None
+        io = path if io_mode == 'abs' else os.path.join('wb', 'book.xlsx')
+        for k, (case, nm) in enumerate(zip(cases, names)):
+            kw = _call_kwargs(case, k, nm)
             # a sheet with a formula column is read twice in this process: the second read must
             # satisfy the specification like the first (nothing may survive from one call to the next)
             reads = 2 if any(text(h).strip() == 'formula' for h in case['headers']) else 1
@@ -187,25 +298,26 @@ def execute_book(cases):
             for attempt in range(reads):
                 raised, records = '', []
                 try:
-                    with warnings.catch_warnings():
-                        warnings.simplefilter('ignore')
-                        recs = read_excel(path, **kw)
+                    with warnings.catch_warnings(), contextlib.redirect_stdout(io_module.StringIO()):
+                        warnings.simplefilter('ignore')        # (the OUTCAR reader prints to stdout)
+                        recs = read_excel(io, **kw)
                     records = [proj_record(r) for r in recs]
                 except Exception as ex:      # the library raised on a sheet of the quantifier
                     raised, msg = type(ex).__name__, ('%s: %s' % (type(ex).__name__, ex))[:160]
                 evs.append({'ev': 'read', 'headers': case['headers'], 'rows': case['rows'],
-                            'raised': raised, 'records': records})
+                            'opt': case['opt'], 'raised': raised, 'records': records})
                 if 'expected' in case and not raised and mism is None:
                     exp = canon_expected(case['expected'])
                     if records != exp:
-                        bad = [k for k in range(max(len(exp), len(records)))
-                               if k >= len(exp) or k >= len(records) or exp[k] != records[k]]
-                        k = bad[0]
+                        bad = [q for q in range(max(len(exp), len(records)))
+                               if q >= len(exp) or q >= len(records) or exp[q] != records[q]]
+                        q = bad[0]
                         mism = {'read': attempt + 1, 'rows_differing': bad[:10],
-                                'expected': show_record(exp[k]) if k < len(exp) else None,
-                                'got': show_record(records[k]) if k < len(records) else None}
-            out.append((evs, mism, {'raised': msg, 'sheet': nm}))
+                                'expected': show_record(exp[q]) if q < len(exp) else None,
+                                'got': show_record(records[q]) if q < len(records) else None}
+            out.append((evs, mism, {'raised': msg, 'sheet': nm, 'kwargs': repr(kw)[:200], 'io': io_mode}))
     finally:
+        os.chdir(old)
         shutil.rmtree(d, ignore_errors=True)
     return out
 
@@ -261,35 +373,128 @@ def _str(rnd):
     return {'t': 's', 'v': codes(_pad(rnd.choice(WORDS) + rnd.choice(['', '', '_%d' % rnd.randint(0, 99)]), rnd, 0.5))}
 
 
-def random_case(rnd, cid, big=False):
+WS = [' ', '  ', '\t', '\xa0', ' \t', ' ']          # python str.strip() removes all of these
+UNI_NAMES = ['énergie', 'ΔH', '温度', 'T.ref', 'v1.0', 'run.2', 'E_ads/eV', 'n°', 'x.1']
+
+
+def _pad_any(s, rnd, p=0.3):
+    if rnd.random() < p:
+        s = rnd.choice(WS + ['']) + s + rnd.choice(WS + [''])
+    return s
+
+
+def _cell(kind, rnd, f):
+    """One non-empty cell of the given kind (f: the forced features of the case)."""
+    if kind == 'num':
+        return _num(rnd)
+    if kind == 'wav':                      # wavenumbers: positive, zero, negative (imaginary), tiny
+        m = rnd.random()
+        if m < 0.15:
+            return {'t': 'n', 'v': [0, 0]}
+        if m < 0.35:
+            return {'t': 'n', 'v': to_dec(-round(rnd.uniform(0.5, 900), 2))}
+        if m < 0.45:
+            return {'t': 'n', 'v': to_dec(round(rnd.uniform(0.001, 99.9), 3))}
+        return _num(rnd)
+    if kind == 'str':
+        c = _str(rnd)
+        if f.get('unicode_ws'):
+            c = {'t': 's', 'v': codes(_pad_any(text(c['v']).strip(), rnd, 0.7))}
+        return c
+    if kind == 'mix':
+        return _num(rnd) if rnd.random() < 0.5 else _str(rnd)
+    if kind == 'bool':
+        return {'t': 'b', 'v': [rnd.randint(0, 1)]}
+    if kind == 'date':
+        return {'t': 't', 'v': [rnd.randint(1990, 2030), rnd.randint(1, 12), rnd.randint(1, 28),
+                                rnd.randint(0, 23), rnd.randint(0, 59), rnd.randint(0, 59)]}
+    if kind == 'bd':
+        return _cell(rnd.choice(['bool', 'date', 'str', 'num']), rnd, f)
+    if kind == 'numstr':                   # text that looks like a number; the column is read with dtype=str
+        return {'t': 's', 'v': codes(_pad(rnd.choice(['12', '007', '1.50', '3e2', '-4', '0']), rnd))}
+    if kind == 'formula':
+        return {'t': 's', 'v': codes(_pad(rnd.choice(FORMULAS), rnd))}
+    if kind == 'statmech':
+        return {'t': 's', 'v': codes(_pad(_rcase(rnd.choice(PRESETS), rnd) if rnd.random() < 0.5
+                                          else rnd.choice(PRESETS), rnd))}
+    if kind == 'atoms':
+        m = rnd.choice(MOLECULES)
+        return {'t': 's', 'v': codes(_pad(rnd.choice([m, m, m + '.xyz', '@/' + m + '.xyz']), rnd))}
+    if kind == 'outcar':
+        return {'t': 's', 'v': codes(_pad(rnd.choice(f['outcar_names']), rnd))}
+    nm = rnd.choice(MODELS[kind] + ['EmptyMode', _rcase('emptymode', rnd)])
+    return {'t': 's', 'v': codes(_pad(nm, rnd))}
+
+
+def random_case(rnd, cid, big=False, **f):
+    """A random sheet of the quantifier.  Keyword arguments force features (used by the boundary
+    cases that every run contains): nrows, nvib, nlist, nrot, form, sheet, order, first_empty,
+    atoms, outcar, opt_nondefault, delim, types, unicode, dtype_str, explicit_defaults, unnamed."""
+    P = lambda key, p: f[key] if key in f else rnd.random() < p
+    delim = f.get('delim', '-' if rnd.random() < 0.06 else '.')
     cols = []        # (header text, kind)
     for nm in rnd.sample(ORD_NAMES, rnd.randint(0, 6)):
         cols.append((_pad(nm, rnd, 0.25), rnd.choice(['num', 'str', 'mix'])))
+    if P('unicode', 0.15):
+        for nm in rnd.sample(UNI_NAMES, rnd.randint(1, 3)):
+            cols.append((_pad_any(nm, rnd, 0.6), rnd.choice(['num', 'str'])))
+        f = dict(f, unicode_ws=True)
+    if P('types', 0.12):
+        cols.append(('is_adsorption', 'bool'))
+        cols.append(('measured on', 'date'))
+    if P('dtype_str', 0.05):
+        cols.append(('code', 'numstr'))
+    if P('unnamed', 0.05):
+        cols.append(('', 'mix'))
+    if P('atoms', 0.1):
+        cols.append((_pad('atoms', rnd, 0.2), 'atoms'))
     if rnd.random() < 0.25:
         cols.append(('formula', 'formula'))
-    if rnd.random() < 0.65:
-        pre = rnd.choice(['element.', 'elements.'])
+    if rnd.random() < 0.65 or delim != '.':
+        pre = rnd.choice(['element', 'elements'])
         syms = rnd.sample(SYMBOLS, rnd.randint(1, 4))
         if 'RU' in syms and 'Ru' in syms:
             syms.remove('RU')
         for s in syms:
-            cols.append((_pad((pre if rnd.random() < 0.9 else 'element.') + s, rnd, 0.1), 'num'))
-    nv = rnd.choice([0, 1, 2, 3, 6, 12, 30]) if not big else rnd.choice([12, 24, 30])
-    vib = [('vib_wavenumber', 'num')] * nv
-    rot = [('rot_temperature', 'num')] * rnd.choice([0, 0, 1, 2, 3, 12])
+            cols.append((_pad((pre if rnd.random() < 0.9 else 'element') + delim + s, rnd, 0.1), 'num'))
+    nv = f.get('nvib', (rnd.choice([0, 1, 2, 3, 6, 12, 30]) if not big else rnd.choice([12, 24, 30])))
+    vib = [('vib_wavenumber', 'wav')] * nv
+    files = []
+    if P('outcar', 0.1):
+        names = []
+        for q in range(rnd.randint(1, 3)):
+            nm = rnd.choice(['', '@/']) + 'OUTCAR_%s_%d' % (cid, q)
+            modes = [{'k': rnd.choice(['f', 'f', 'f', 'i']),
+                      'w': to_dec(rnd.choice([0.0, 100.0, round(rnd.uniform(0.01, 200), 3),
+                                              round(rnd.uniform(200, 4000), 2)]))}
+                     for _ in range(rnd.choice([0, 1, 3, 9, 12]))]
+            names.append(nm)
+            files.append([codes(nm), modes])
+        f = dict(f, outcar_names=names)
+        vib = vib + [('vib_outcar', 'outcar')]
+        rnd.shuffle(vib)
+    rot = [('rot_temperature', 'num')] * f.get('nrot', rnd.choice([0, 0, 1, 2, 3, 12]))
     lists = []
-    for nm in rnd.sample(LIST_NAMES, rnd.choice([0, 0, 1, 2])):
-        k = rnd.choice([1, 2, 3, 4, 4, 11, 15, 30])      # two-digit positions in every run
-        if rnd.random() < 0.5:
-            lists.append([('list.' + nm, 'mix')] * k)
+    lnames = rnd.sample(LIST_NAMES, rnd.choice([0, 0, 1, 2]))
+    if 'nlist' in f and not lnames:
+        lnames = [rnd.choice(LIST_NAMES)]
+    for q, nm in enumerate(lnames):
+        k = f['nlist'] if ('nlist' in f and q == 0) else rnd.choice([1, 2, 3, 4, 4, 11, 15, 30])
+        kind = 'bd' if P('types', 0.1) else 'mix'
+        style = rnd.random()
+        if style < 0.45:
+            lists.append([('list.' + nm, kind)] * k)                       # repeated bare header
         else:
-            idx = list(range(k))
+            idx = list(range(k)) if style < 0.8 else sorted(rnd.sample(range(0, 40), k))   # gaps
             if rnd.random() < 0.4:
                 rnd.shuffle(idx)
-            lists.append([('list.%s.%d' % (nm, i), 'mix') for i in idx])
+            elif rnd.random() < 0.2:
+                idx.reverse()
+            lists.append([('list.%s.%d' % (nm, i), kind) for i in idx])
     dicts = []
     for nm in rnd.sample(DICT_NAMES, rnd.choice([0, 0, 1, 2])):
-        dicts.append([('dict.%s.%s' % (nm, k), 'mix') for k in rnd.sample(DICT_KEYS, rnd.randint(1, 4))])
+        kind = 'bd' if P('types', 0.1) else 'mix'
+        dicts.append([('dict.%s.%s' % (nm, k), kind) for k in rnd.sample(DICT_KEYS, rnd.randint(1, 4))])
     nasa = []
     if rnd.random() < 0.3:
         for which in ('a_low', 'a_high'):
@@ -307,16 +512,16 @@ def random_case(rnd, cid, big=False):
     groups = [g for g in groups if g]
     if not groups:
         groups = [[('name', 'str')]]
-    mode = rnd.random()
-    if mode < 0.4:
+    order = f.get('order', rnd.choice(['groups_shuffled', 'groups_shuffled', 'shuffled', 'shuffled',
+                                       'natural', 'natural', 'reversed']))
+    if order == 'groups_shuffled':
         rnd.shuffle(groups)
-        flat = [c for g in groups for c in g]
-    elif mode < 0.7:
-        flat = [c for g in groups for c in g]
+    flat = [c for g in groups for c in g]
+    if order == 'shuffled':
         rnd.shuffle(flat)
-    else:
-        flat = [c for g in groups for c in g]
-    nrows = rnd.randint(1, 60) if big else rnd.choice([1, 2, 3, 5, 8, 13, 21])
+    elif order == 'reversed':
+        flat.reverse()
+    nrows = f.get('nrows', rnd.randint(1, 60) if big else rnd.choice([1, 2, 3, 5, 8, 13, 21]))
     density = rnd.choice([0.08, 0.3, 0.6, 0.9, 1.0])
     ragged = rnd.random() < 0.5
     rows = []
@@ -330,34 +535,62 @@ def random_case(rnd, cid, big=False):
                 empty = seen_vib > nfilled
             else:
                 empty = rnd.random() > density
-            if empty:
-                row.append({'t': 'e', 'v': []})
-            elif kind == 'num':
-                row.append(_num(rnd))
-            elif kind == 'str':
-                row.append(_str(rnd))
-            elif kind == 'mix':
-                row.append(_num(rnd) if rnd.random() < 0.5 else _str(rnd))
-            elif kind == 'formula':
-                row.append({'t': 's', 'v': codes(_pad(rnd.choice(FORMULAS), rnd))})
-            elif kind == 'statmech':
-                row.append({'t': 's', 'v': codes(_pad(_rcase(rnd.choice(PRESETS), rnd) if rnd.random() < 0.5
-                                                      else rnd.choice(PRESETS), rnd))})
-            else:
-                nm = rnd.choice(MODELS[kind] + ['EmptyMode', _rcase('emptymode', rnd)])
-                row.append({'t': 's', 'v': codes(_pad(nm, rnd))})
+            row.append({'t': 'e', 'v': []} if empty else _cell(kind, rnd, f))
         rows.append(row)
-    if all(c['t'] == 'e' for c in rows[-1]):
+    if rows and f.get('first_empty') and len(rows) > 1:
+        rows[0] = [{'t': 'e', 'v': []} for _ in flat]
+    if rows and all(c['t'] == 'e' for c in rows[-1]):
         k = rnd.randrange(len(flat))
-        kind = flat[k][1]
-        rows[-1][k] = (_num(rnd) if kind in ('num', 'mix') else
-                       _str(rnd) if kind == 'str' else
-                       {'t': 's', 'v': codes('H2O')} if kind == 'formula' else
-                       {'t': 's', 'v': codes('harmonic')} if kind == 'statmech' else
-                       {'t': 's', 'v': codes('EmptyMode')})
-    return {'cid': cid, 'kind': 'random', 'headers': [codes(h) for h, _ in flat], 'rows': rows,
-            'comment': rnd.random() < 0.6, 'skip_empty_list': rnd.random() < 0.5,
+        rows[-1][k] = _cell(flat[k][1], rnd, f)
+    opt = dict(DEFAULT_OPT, delim=ord(delim), files=files)
+    if P('opt_nondefault', 0.15):
+        opt['cutoff'] = to_dec(rnd.choice([100.0, 50.5, 1000.0]))
+        opt['imag'] = rnd.random() < 0.6
+    case = {'cid': cid, 'kind': 'random', 'headers': [codes(h) for h, _ in flat], 'rows': rows, 'opt': opt,
+            'form': f.get('form', rnd.choice(FORM_NAMES)), 'sheet': f.get('sheet', rnd.choice(SHEET_MODES)),
+            'order': order, 'explicit_defaults': f.get('explicit_defaults', rnd.random() < 0.1),
             'sheetname': rnd.choice(NAME_POOL + [None, None])}
+    ds = [codes(h) for h, kind in flat if kind == 'numstr']
+    if ds:
+        case['dtype_str'] = ds
+        case['use_converters'] = rnd.random() < 0.5
+    return case
+
+
+def boundary_cases(rnd):
+    """Cases that every run contains: both ends of every range of the quantifier and the values
+    next to them, every layout / addressing form, every option at a non-default value."""
+    out = []
+    n = [0]
+
+    def add(**f):
+        n[0] += 1
+        out.append(random_case(rnd, 'q%d' % n[0], **f))
+    for nr in (0, 0, 1, 1, 2, 59, 60, 61):
+        add(nrows=nr, nvib=rnd.choice([0, 2, 5]))
+    for nv in (1, 2, 10, 11, 29, 30, 31):
+        add(nvib=nv, nrows=rnd.choice([1, 3]))
+    for nl in (1, 2, 10, 11, 29, 30, 31):
+        add(nlist=nl, nvib=0, nrows=2)
+    for form in FORM_NAMES:
+        for sheet in SHEET_MODES:
+            add(form=form, sheet=sheet, nrows=rnd.choice([1, 2, 4]), nvib=rnd.choice([0, 3]))
+    for order in ('natural', 'reversed', 'shuffled', 'groups_shuffled'):
+        add(order=order, nvib=3, nrows=3)
+    for _ in range(3):
+        add(first_empty=True, nrows=4)
+        add(atoms=True, nrows=3)
+        add(outcar=True, nvib=rnd.choice([0, 2]), nrows=4, opt_nondefault=False)
+        add(outcar=True, nvib=rnd.choice([0, 2]), nrows=4, opt_nondefault=True)
+        add(outcar=False, nvib=6, nrows=3, opt_nondefault=True)
+        add(delim='-', nrows=3)
+        add(types=True, nrows=5)
+        add(unicode=True, nrows=3)
+        add(dtype_str=True, nrows=4)
+        add(unnamed=True, nrows=3)
+        add(explicit_defaults=True, nrows=2)
+        add(nrot=12, nrows=2)
+    return out
 
 
 # ---------------------------------------------------------------------------- repository workbooks
@@ -438,7 +671,8 @@ def _register(ctx, module, cfg, r):
 
 
 def _special(case):
-    toks = ('element', 'formula', '_model', 'vib_wavenumber', 'rot_temperature', 'nasa', 'list.', 'dict.')
+    toks = ('element', 'formula', '_model', 'vib_wavenumber', 'rot_temperature', 'nasa', 'list.', 'dict.',
+            'atoms', 'vib_outcar')
     for c, h in enumerate(case['headers']):
         t = text(h)
         if any(k in t for k in toks) and any(row[c]['t'] != 'e' for row in case['rows']):
@@ -446,38 +680,145 @@ def _special(case):
     return False
 
 
+# every one of these must be met in every full run (zero => machinery failure, exit 2)
+REQUIRED_COUNTERS = (
+    ['ordinary', 'element', 'elements_plural', 'formula', 'formula_with_element', 'atoms_molecule',
+     'atoms_file_relative', 'atoms_file_absolute', 'statmech_model', 'trans_model', 'vib_model', 'rot_model',
+     'elec_model', 'nucl_model', 'vib_wavenumber', 'vib_outcar', 'vib_outcar_with_vib_wavenumber',
+     'rot_temperature', 'nasa', 'list_bare', 'list_indexed', 'list_index_two_digits', 'dict',
+     'dict_key_ends_in_digit', 'unnamed_column', 'padded_header', 'padded_string_cell',
+     'non_ascii_header', 'non_space_blank_padding', 'dotted_ordinary_header', 'repeated_header',
+     'repeats_11_or_more', 'vib_30_repeats', 'entirely_empty_row', 'first_row_empty', 'some_empty_cell',
+     'rows_0', 'rows_1', 'rows_2', 'rows_59', 'rows_60', 'rows_61', '30_or_more_rows',
+     'cell_int', 'cell_float', 'cell_str', 'cell_bool', 'cell_datetime', 'cell_numeric_text_dtype_str',
+     'wavenumber_negative', 'wavenumber_zero', 'wavenumber_below_100',
+     'delimiter_dash', 'delimiter_explicit_default', 'cutoff_nondefault', 'include_imaginary_true',
+     'options_nondefault_without_outcar', 'outcar_empty_file', 'outcar_relative_path', 'outcar_absolute_path',
+     'order_natural', 'order_reversed', 'order_shuffled',
+     'sheet_by_name', 'sheet_by_index', 'sheet_default_first', 'io_absolute_path', 'io_relative_path',
+     'read_twice']
+    + ['form_' + f for f in sorted(FORMS)]
+    + ['preset_' + p for p in PRESETS]
+    + ['model_' + m for ms in MODELS.values() for m in ms] + ['model_EmptyMode', 'model_emptymode_other_case'])
+
+
 def _exercise(ctx, case):
-    """Counters for vacuity evidence only (which header forms met a non-empty cell)."""
+    """Counters of the input classes met (vacuity: REQUIRED_COUNTERS must all be non-zero)."""
     hs = [text(h) for h in case['headers']]
-    forms = (('element', 'element'), ('formula', 'formula'), ('vib_wavenumber', 'vib_wavenumber'),
-             ('rot_temperature', 'rot_temperature'), ('list', 'list.'), ('dict', 'dict.'),
-             ('nasa', 'nasa.'), ('statmech_model', 'statmech_model'), ('trans_model', 'trans_model'),
-             ('vib_model', 'vib_model'), ('rot_model', 'rot_model'), ('elec_model', 'elec_model'),
-             ('nucl_model', 'nucl_model'))
+    opt = case.get('opt') or DEFAULT_OPT
+    dl = chr(opt['delim'])
+    forms = (('formula', 'formula'), ('atoms', 'atoms'), ('vib_wavenumber', 'vib_wavenumber'),
+             ('vib_outcar', 'vib_outcar'), ('rot_temperature', 'rot_temperature'), ('list', 'list.'),
+             ('dict', 'dict.'), ('nasa', 'nasa.'), ('statmech_model', 'statmech_model'),
+             ('trans_model', 'trans_model'), ('vib_model', 'vib_model'), ('rot_model', 'rot_model'),
+             ('elec_model', 'elec_model'), ('nucl_model', 'nucl_model'))
     seen = set()
+    rows = case['rows']
     for c, h in enumerate(hs):
-        filled = [row[c] for row in case['rows'] if row[c]['t'] != 'e']
+        filled = [row[c] for row in rows if row[c]['t'] != 'e']
         if not filled:
             continue
-        for nm, tok in forms:
-            if tok in h:
-                seen.add(nm)
-                break
+        t = h.strip()
+        cls = 'ordinary'
+        if t == '':
+            cls = 'unnamed_column'
+        elif t.startswith('element' + dl) or t.startswith('elements' + dl):
+            cls = 'element'
+            if t.startswith('elements'):
+                seen.add('elements_plural')
         else:
-            seen.add('ordinary')
-        if h != h.strip():
+            for nm, tok in forms:
+                if tok in t:
+                    cls = nm
+                    break
+        seen.add(cls)
+        vals = [text(x['v']).strip() for x in filled if x['t'] == 's']
+        if cls == 'list':
+            seen.add('list_bare' if t.count('.') == 1 else 'list_indexed')
+            if t.count('.') == 2 and len(t.rsplit('.', 1)[1]) >= 2:
+                seen.add('list_index_two_digits')
+        elif cls == 'dict' and t[-1].isdigit():
+            seen.add('dict_key_ends_in_digit')
+        elif cls == 'atoms':
+            for v in vals:
+                seen.add('atoms_file_absolute' if v.startswith('@/') or v.startswith('/') else
+                         'atoms_file_relative' if v.endswith('.xyz') else 'atoms_molecule')
+        elif cls == 'vib_outcar':
+            for v in vals:
+                seen.add('outcar_absolute_path' if v.startswith('@/') or v.startswith('/') else 'outcar_relative_path')
+            if any(not m for _, m in opt['files']):
+                seen.add('outcar_empty_file')
+            if any('vib_wavenumber' in hs[d] and row[d]['t'] != 'e' and row[c]['t'] != 'e'
+                   for row in rows for d in range(len(hs))):
+                seen.add('vib_outcar_with_vib_wavenumber')
+        elif cls == 'vib_wavenumber':
+            for x in filled:
+                if x['t'] == 'n':
+                    m = x['v'][0]
+                    if m <= 0 or float(Decimal(m).scaleb(x['v'][1])) < 100:
+                        seen.add('wavenumber_negative' if m < 0 else 'wavenumber_zero' if m == 0 else
+                                 'wavenumber_below_100')
+        elif cls == 'statmech_model':
+            for v in vals:
+                seen.add('preset_' + v.lower())
+        elif cls.endswith('_model'):
+            for v in vals:
+                seen.add('model_' + v if v in MODELS[cls] or v == 'EmptyMode' else 'model_emptymode_other_case')
+        elif cls == 'ordinary':
+            if any(ord(ch) > 127 for ch in t):
+                seen.add('non_ascii_header')
+            if '.' in t:
+                seen.add('dotted_ordinary_header')
+        if cls == 'formula' and any(hs[d].strip().startswith('element') and row[d]['t'] != 'e' and row[c]['t'] != 'e'
+                                    for row in rows for d in range(len(hs))):
+            seen.add('formula_with_element')
+        if h != t:
             seen.add('padded_header')
-        if any(x['t'] == 's' and text(x['v']) != text(x['v']).strip() for x in filled):
-            seen.add('padded_string_cell')
+            if any(ch not in ' ' for ch in h[:len(h) - len(h.lstrip())] + h[len(h.rstrip()):]):
+                seen.add('non_space_blank_padding')
+        for x in filled:
+            if x['t'] == 's' and text(x['v']) != text(x['v']).strip():
+                seen.add('padded_string_cell')
+            if x['t'] == 'n':
+                q = Decimal(x['v'][0]).scaleb(x['v'][1])
+                seen.add('cell_int' if q == q.to_integral_value() else 'cell_float')
+            else:
+                seen.add({'s': 'cell_str', 'b': 'cell_bool', 't': 'cell_datetime'}[x['t']])
+    if case.get('dtype_str'):
+        seen.add('cell_numeric_text_dtype_str')
     if len(hs) != len(set(hs)):
         seen.add('repeated_header')
-    if any(all(x['t'] == 'e' for x in row) for row in case['rows']):
+        top = max(hs.count(h) for h in set(hs))
+        if top >= 11:
+            seen.add('repeats_11_or_more')
+        if hs.count('vib_wavenumber') >= 30:
+            seen.add('vib_30_repeats')
+    if any(all(x['t'] == 'e' for x in row) for row in rows):
         seen.add('entirely_empty_row')
-    if any(x['t'] == 'e' for row in case['rows'] for x in row):
+    if len(rows) > 1 and all(x['t'] == 'e' for x in rows[0]):
+        seen.add('first_row_empty')
+    if any(x['t'] == 'e' for row in rows for x in row):
         seen.add('some_empty_cell')
-    seen.add('comment_row' if case.get('comment', True) else 'no_comment_row')
-    if len(case['rows']) >= 30:
+    if len(rows) in (0, 1, 2, 59, 60, 61):
+        seen.add('rows_%d' % len(rows))
+    if len(rows) >= 30:
         seen.add('30_or_more_rows')
+    seen.add('form_' + _form(case))
+    seen.add({'name': 'sheet_by_name', 'index': 'sheet_by_index', 'first': 'sheet_default_first'}[case.get('sheet', 'name')])
+    if opt['delim'] == 45:
+        seen.add('delimiter_dash')
+    if case.get('explicit_defaults'):
+        seen.add('delimiter_explicit_default')
+    if opt['cutoff'] != [0, 0]:
+        seen.add('cutoff_nondefault')
+        if not any('vib_outcar' in h for h in hs):
+            seen.add('options_nondefault_without_outcar')
+    if opt['imag']:
+        seen.add('include_imaginary_true')
+    if case.get('order') in ('natural', 'reversed', 'shuffled'):
+        seen.add('order_' + case['order'])
+    if any(h.strip() == 'formula' for h in hs):
+        seen.add('read_twice')
     for nm in seen:
         ctx.count('exercised_' + nm)
 
@@ -499,7 +840,9 @@ def _tags(case, info):
 def _brief(case):
     return {'kind': case['kind'], 'headers': [text(h) for h in case['headers']],
             'rows': [[cell_value(c) for c in row] for row in case['rows'][:3]],
-            'n_rows': len(case['rows']), 'comment_row': case.get('comment', True)}
+            'n_rows': len(case['rows']), 'form': _form(case), 'sheet': case.get('sheet', 'name'),
+            'options': {k: v for k, v in (case.get('opt') or DEFAULT_OPT).items() if k != 'files'},
+            'dtype_str': [text(h) for h in case.get('dtype_str', [])]}
 
 
 def run(ctx):
@@ -556,7 +899,7 @@ def run(ctx):
             raise core.MachineryError('the wide header set should be rejected (ChainAgrees)\n' + wide.out[-1500:])
         ctx.coverage['headers_where_chain_order_matters'] = sorted(set(chain))
         # (S->C) the sheets of the configuration with TLC's records; the quick tier replays every
-        # sheet of the five-column layouts and a seeded 32 % sample of the others (every layout
+        # sheet of the five-column layouts and a seeded 28 % sample of the others (every layout
         # keeps several emptiness patterns); the thorough tier replays all
         ctx.coverage['tlc_sheets'] = len(tcases)
         rnd = random.Random(ctx.seed)
@@ -565,10 +908,16 @@ def run(ctx):
         for k, c in enumerate(tcases):
             mixed = (7 in c['lay'] and any(k in c['lay'] for k in (4, 5, 6))    # formula + element.X
                      or max(c['lay']) > 24)                                     # two-digit indices
-            if ctx.quick and c['how'] == 'all' and not mixed and rnd.random() < 0.68:
+            if ctx.quick and c['how'] == 'all' and not mixed and rnd.random() < 0.72:
                 continue
+            q = len(cases)
             cases.append({'cid': 't%d' % k, 'kind': 'tlc', 'headers': c['headers'], 'rows': c['rows'],
-                          'expected': c['expected'], 'comment': k % 2 == 0, 'skip_empty_list': k % 4 == 1})
+                          'opt': {'delim': c['opt']['delim'], 'cutoff': c['opt']['cutoff'],
+                                  'imag': c['opt']['imag'], 'files': c['opt']['files']},
+                          'expected': c['expected'], 'form': FORM_NAMES[q % len(FORM_NAMES)],
+                          'sheet': SHEET_MODES[(q // len(FORM_NAMES)) % 3],
+                          'explicit_defaults': q % 7 == 3})
+        cases.extend(boundary_cases(rnd))
         for k in range(ctx.pick(400, 6000)):
             cases.append(random_case(rnd, 'r%d' % k, big=False))
         for k in range(ctx.pick(40, 1500)):
@@ -588,7 +937,10 @@ def run(ctx):
     if cur:
         books.append(cur)
     t1 = time.time()
-    results = core.pmap(execute_book, [[c for _, c in b] for b in books], chunksize=1)
+    results = core.pmap(execute_book, [([c for _, c in b], 'abs' if n % 2 == 0 else 'rel')
+                                       for n, b in enumerate(books)], chunksize=1)
+    ctx.count('exercised_io_absolute_path', (len(books) + 1) // 2)
+    ctx.count('exercised_io_relative_path', len(books) // 2)
     phase['replay_into_read_excel'] = round(time.time() - t1, 1)
     ctx.coverage['workbooks'] = len(books)
     per_case = [None] * len(cases)
@@ -625,6 +977,10 @@ def run(ctx):
         ctx.violation(clause, case, tags=_tags(case, infos[tid]),
                       detail={'sheet': _brief(case), 'raised': infos[tid].get('raised')})
     ctx.coverage['repo_sheets_outside_quantifier'] = outside
+    if ctx.replay_case is None:
+        missing = [nm for nm in REQUIRED_COUNTERS if not ctx.coverage.get('exercised_' + nm)]
+        if missing:
+            raise core.MachineryError('input classes of the quantifier not exercised in this run: %s' % missing)
     ctx.assume('numbers are compared through their 9-digit decimal projection; the reader passes cells '
                'through, so equal projections stand for equal values')
     ctx.assume("the informational preset entries 'required'/'optional' are not part of the record "
